@@ -22,7 +22,6 @@ from dask.dataframe.groupby import (
     _build_agg_args,
     _cov_agg,
     _cov_chunk,
-    _cum_agg_aligned,
     _cum_agg_filled,
     _cumcount_aggregate,
     _determine_levels,
@@ -1411,6 +1410,15 @@ class GroupByCumulative(Expr, GroupByBase):
             columns,
             *by,
         )
+
+
+def _cum_agg_aligned(part, cum_last, index, columns, func, initial):
+    align = cum_last.reindex(part.set_index(index).index, fill_value=initial)
+    align.index = part.index
+    result = func(part[columns], align)
+    # A group without any valid value in the preceding partitions has
+    # nothing to carry over (missing values are skipped, not propagated)
+    return result.where(align.notna(), part[columns])
 
 
 class GroupByCumulativeFinalizer(Expr, GroupByBase):
